@@ -73,7 +73,7 @@ def cases(draw, tier, fast):
     return {"graph": graph, "text": text, "table": draw(gens.tables(graph["k"])), "fast": fast,
             "check_kind": check_kind, "check_len": check_len, "extra": extra,
             "salt": draw(st.integers(0, 2 ** 16)),
-            "np_start": draw(st.sampled_from([False, False, "int64", "int32", "uint8"])),
+            "np_start": draw(st.sampled_from([False, False, "int64", "int32", "uint8", "int8"])),
             "np_lengths": draw(st.sampled_from([False, False, True])),
             "np_str": draw(st.sampled_from([False, False, False, True]))}
 
